@@ -197,8 +197,12 @@ def build_driver(prop):
 
 
 def obligations(prop):
-    with open(os.path.join(LEAN, "obligations.json")) as f:
-        return json.load(f).get(prop, [])
+    """names of the theorems that must exist, compile and be axiom-clean for `prop`"""
+    try:
+        with open(os.path.join(LEAN, "obligations", prop + ".json")) as f:
+            return json.load(f)
+    except OSError:
+        return []
 
 
 def grep_forbidden():
